@@ -266,9 +266,9 @@ class CaseGen:
 def gen_cases(ctx, reg):
     cg = CaseGen(ctx, reg)
     quick = ctx.tier == "quick"
-    cases = []
+    cases = directed_minimal()
     mul = 1 if quick else 8
-    for _ in range(900 * mul):
+    for _ in range(650 * mul):
         cases.append(cg.make("random"))
     for name in NAMES + [b"", b"\xff\xfe", b"\xc0\x80"]:
         for call in {name, respell(ctx.rng, name), respell(ctx.rng, name)}:
@@ -297,7 +297,7 @@ def gen_cases(ctx, reg):
         for kind in ("error", "panic"):
             cases.append(cg.make("messages", kind=kind, msg=msg, missing=False))
     # JSON-RPC
-    for _ in range(250 * mul):
+    for _ in range(180 * mul):
         cases.append(cg.make("jsonrpc", palette=JSON_PALETTE, codec="jsonrpc",
                              arity=ctx.rng.choice(["eq", "eq", "eq", "fewer"])))
     for _ in range(25 * mul):
@@ -308,6 +308,40 @@ def gen_cases(ctx, reg):
     return cases
 
 
+def directed_minimal():
+    """the smallest input for each defect found so far: they run first, so a replay file shows the minimal case"""
+    base_o = dict(opt_combo(0), simple=False)
+    none_m = lambda **kw: dict({"id": 1, "name": hx(b"f"), "missing": False, "ctx": False, "params": [], "variadic": False,
+                                "velem": None, "results": [], "err": True}, **kw)
+
+    def case(family, **kw):
+        c = {"family": family, "codec": "hprose", "copts": dict(base_o), "sopts": dict(base_o, debug=False), "types": [],
+             "methods": [none_m()], "call": hx(b"f"), "args": [], "want": [], "hdrs": [], "rhdrs": [],
+             "res": {"kind": "values", "values": [], "msg": ""}, "rtypes": [], "rt_default": False}
+        c.update(kw)
+        return c
+    out = []
+    # 1. a float64 header, a service decoding reals as float32, a call without arguments
+    out.append(case("min-header-error-dropped", sopts=dict(base_o, debug=False, real=1),
+                    hdrs=[{"k": hx(b"k"), "v": {"t": IFACE, "v": {"t": T("float64"), "v": iogen.f64bits(1e300)}}}]))
+    # 2. f(a interface{}, b *Inner) called with the same pointer twice
+    pin = Ptr(Reg("Inner"))
+    out.append(case("min-shared-pointer", types=[IFACE, pin], methods=[none_m(params=[0, 1])], want=[0, 1],
+                    args=[{"t": IFACE, "v": {"t": pin, "v": {"id": 900001, "v": {"X": "7", "Y": hx(b"y")}}}},
+                          {"t": pin, "v": {"ref": 900001}}]))
+    # 3. func() (interface{}, error) returning (errors.New("an error value"), nil)
+    out.append(case("error-value-result", methods=[none_m(results=[-1])], rt_default=True, rtypes=None,
+                    res={"kind": "values", "values": [{"t": IFACE, "v": {"t": T("error"), "v": hx(b"an error value")}}], "msg": ""}))
+    # 4. JSON-RPC: three results, two declared
+    ints = [{"t": T("int"), "v": str(i)} for i in (1, 2, 3)]
+    out.append(case("min-jsonrpc-more-results", codec="jsonrpc", types=[T("int")], methods=[none_m(results=[0, 0, 0])],
+                    res={"kind": "values", "values": ints, "msg": ""}, rtypes=[0, 0]))
+    # 5. JSON-RPC: f(a int) called with (1, 2)
+    out.append(case("min-jsonrpc-surplus", codec="jsonrpc", types=[T("int")], methods=[none_m(params=[0])], want=[0, -1],
+                    args=[{"t": T("int"), "v": "1"}, {"t": IFACE, "v": {"t": T("int"), "v": "2"}}]))
+    return out
+
+
 def directed_reserved(cg):
     """the guard of C07_request_roundtrip_partial: the application itself sets the reserved header"""
     out = []
@@ -315,7 +349,9 @@ def directed_reserved(cg):
         c = cg.make("reserved-header", nparams=2, variadic=False, missing=False, arity="eq", strings=True, nhdrs=0)
         c["copts"]["simple"] = simple
         c["types"] = [T("string")]
-        c["methods"][0].update({"params": [0, 0], "variadic": False, "velem": None})
+        c["methods"] = [dict(c["methods"][0], params=[0, 0], variadic=False, velem=None, results=[], missing=False, id=1)]
+        c["res"] = {"kind": "values", "values": [], "msg": ""}
+        c["rtypes"], c["rt_default"], c["rhdrs"] = [], False, []
         c["args"] = [{"t": T("string"), "v": hx(b"hello")}, {"t": T("string"), "v": hx(b"hello")}]
         c["want"] = [0, 0]
         c["hdrs"] = [{"k": hx(b"simple"), "v": {"t": IFACE, "v": {"t": T("bool"), "v": True}}}]
@@ -325,8 +361,13 @@ def directed_reserved(cg):
 
 # ------------------------------------------------------------------------------------------ model lines
 
+TYPES = [None]          # the type table of the case being rendered
+
+
 def ty_sx(i):
-    return "i" if i < 0 else "(n %d)" % i
+    if i < 0 or (TYPES[0] is not None and i < len(TYPES[0]) and TYPES[0][i]["k"] == "iface"):
+        return "i"
+    return "(n %d)" % i
 
 
 def opts_sx(o, service):
@@ -347,6 +388,7 @@ def hdr_or_sx(entries):
 
 
 def model_line(c, o, horder=None, rhorder=None, with_go=True):
+    TYPES[0] = c["types"]
     hs = dict((e["k"], e["v"]) for e in (o.get("hdrs_sx") or []))
     rhs = dict((e["k"], e["v"]) for e in (o.get("rhdrs_sx") or []))
     horder = horder if horder is not None else [h["k"] for h in c["hdrs"]]
@@ -440,7 +482,14 @@ def property_oracle(c, o):
         return out
     want_m = expected_method(c, o)
     if dec.get("panic"):
-        out.append(("service-decode-panics:" + norm(dec["panic"]), "service codec Decode panicked on the client codec's request: " + dec["panic"][:200]))
+        m0 = c["methods"][0]
+        if c["codec"] == "jsonrpc" and not m0["missing"] and not m0["variadic"] and len(c["args"]) > len(m0["params"]) \
+           and "nil pointer" in dec["panic"]:
+            out.append(("jsonrpc-service-decode-panics-on-more-arguments-than-parameters",
+                        "JSON-RPC service codec Decode panics (%s) when the request has more arguments (%d) than the method has parameters (%d)"
+                        % (dec["panic"][:80], len(c["args"]), len(m0["params"]))))
+        else:
+            out.append((c["codec"] + "-service-decode-panics:" + norm(dec["panic"]), "service codec Decode panicked on the client codec's request: " + dec["panic"][:200]))
     elif want_m == -1:
         if not dec.get("failed"):
             out.append(("no-method-accepted", "no method and no missing-method handler, but Decode returned no error"))
@@ -455,9 +504,16 @@ def property_oracle(c, o):
                 out.append(("method-name-differs", "decoded method name %s, called %s" % (dec["name"], c["call"])))
             if dec["method"] != want_m:
                 out.append(("wrong-method", "decoded to method #%s, the property requires #%s" % (dec["method"], want_m)))
+            if any(e["v"].startswith("ERR") for e in (o.get("or_hdrs") or [])):
+                out.append(("header-decode-error-dropped-when-call-has-no-arguments",
+                            "a request header value cannot be decoded under the service's options (%s) but Decode returns no error "
+                            "because the call has no argument list; the headers reach the service wrong"
+                            % [e["v"][4:80] for e in o["or_hdrs"] if e["v"].startswith("ERR")][0]))
             keys = sorted(e["k"] for e in dec["hdrs"])
             wantk = sorted(set([h["k"] for h in c["hdrs"]] + ([hx(b"simple")] if c["codec"] == "hprose" and c["copts"]["simple"] else [])))
-            if keys != wantk:
+            if any(e["v"].startswith("ERR") for e in (o.get("or_hdrs") or [])):
+                pass
+            elif keys != wantk:
                 out.append(("headers-differ", "decoded header keys %s, sent %s" % (keys, wantk)))
             for i, (d, orc) in enumerate(zip(dec.get("hdr_eq") or [], o.get("or_hdrs") or [])):
                 if d and not orc["v"].startswith("ERR"):
@@ -469,7 +525,10 @@ def property_oracle(c, o):
             else:
                 for i, (d, orc) in enumerate(zip(dec.get("eq") or [], o.get("or_args") or [])):
                     if d and not orc.get("eq") and not orc.get("err"):
-                        out.append(("argument-value-differs", "argument %d: %s (the plain io round trip into %s is equal)" % (i, d[:160], orc["ty"])))
+                        ptrs = [set(re.findall(r"\(ptr (\d+)\)", sx)) for sx in (o.get("args_sx") or [])]
+                        shared = any(ptrs[i] & ptrs[j] for j in range(len(ptrs)) if j != i) if i < len(ptrs) else False
+                        key = "pointer-shared-between-arguments-of-different-static-types-decoded-wrong" if shared else "argument-value-differs"
+                        out.append((key, "argument %d: %s (the plain io round trip of this argument alone into %s is equal)" % (i, d[:160], orc["ty"])))
                     w = c["want"][i]
                     if w >= 0 and o["type_names"][w] != "interface {}" and dec["args"][i]["ty"] != o["type_names"][w]:
                         out.append(("argument-type-differs", "argument %d decoded as %s, parameter type %s" % (i, dec["args"][i]["ty"], o["type_names"][w])))
@@ -481,8 +540,17 @@ def property_oracle(c, o):
     res = c["res"]
     msg = bytes.fromhex(res["msg"])
     is_errval = fam == "error-value-result"
+    if c["codec"] == "jsonrpc" and o.get("jreq") and o.get("jresp") and not o["jresp"].get("bad_json") \
+       and not dec.get("panic") and o["jresp"].get("id") != o["jreq"].get("id"):
+        out.append(("jsonrpc-id-not-echoed", "response id %s for request id %s" % (o["jresp"].get("id"), o["jreq"].get("id"))))
     if cd.get("panic"):
-        out.append(("client-decode-panics:" + norm(cd["panic"]), "client codec Decode panicked on the service codec's response: " + cd["panic"][:200]))
+        nrt = 1 if c.get("rt_default") else len(c["rtypes"] or [])
+        if c["codec"] == "jsonrpc" and nrt >= 2 and len(res["values"]) > nrt and "index out of range" in cd["panic"]:
+            out.append(("jsonrpc-client-decode-panics-on-more-results-than-declared",
+                        "JSON-RPC client codec Decode panics (%s) when the response carries more results (%d) than the caller declared (%d)"
+                        % (cd["panic"][:80], len(res["values"]), nrt)))
+        else:
+            out.append((c["codec"] + "-client-decode-panics:" + norm(cd["panic"]), "client codec Decode panicked on the service codec's response: " + cd["panic"][:200]))
     elif res["kind"] in ("error", "panic"):
         got = cd.get("err", "")
         if any(e["v"].startswith("ERR") for e in (o.get("or_rhdrs") or [])):
@@ -569,6 +637,13 @@ def compare(c, o, m):
                 dis.append("decoded headers: model %s go %s" % (m.get("hdrs", "")[:200], fmt_hdrs(dec["hdrs"])[:200]))
             if m.get("args") != fmt_vals(dec.get("args") or []):
                 dis.append("decoded arguments: model %s go %s" % (m.get("args", "")[:300], fmt_vals(dec.get("args") or [])[:300]))
+    elif sd == "dirty":
+        # the model's reading of the code: a header decode error is dropped when no argument list follows
+        if dec.get("failed") or dec.get("panic"):
+            dis.append("model: Decode succeeds although the headers could not be decoded; the service codec fails: %s"
+                       % (dec.get("err") or dec.get("panic") or "")[:160])
+        elif m.get("name") != dec["name"] or m.get("method") != str(dec["method"]):
+            dis.append("decoded name/method differ on the dropped-header-error path")
     elif sd == "nomethod":
         want = bytes.fromhex(m.get("msg", ""))
         if not dec.get("failed") or dec.get("err", "") != go_text(want):
@@ -656,7 +731,7 @@ def compare(c, o, m):
                 dis.append("model's own response scopes are not %s" % k[2:])
     # Service.Handle: decode, execute the scripted function, shape, encode
     rh = o.get("resp_handle") or {}
-    if hp and sd == "ok" and not dec.get("failed") and rh.get("hex") is not None and not o.get("unordered"):
+    if hp and sd in ("ok", "dirty") and not dec.get("failed") and rh.get("hex") is not None and not o.get("unordered"):
         debug_panic = c["sopts"]["debug"] and c["res"]["kind"] == "panic"
         fits = handle_comparable(c, o)
         nrh = len(c["rhdrs"]) + int(c["sopts"]["simple"])
@@ -781,6 +856,7 @@ def run(ctx):
                    {"case": c, "stderr": err[:1500], "failing_input": True})
     validated = 0
     disagreements = []
+    pure = []          # model and implementation disagree although the property holds on the case
     for c in done:
         o, m = obs_by_id[c["id"]], models[c["id"]]
         fam = c["family"]
@@ -801,6 +877,8 @@ def run(ctx):
             ctx.report("c07:" + key, what, {"case": c, "observed": slim(o), "model": m, "failing_input": True})
         if dis:
             disagreements.append((c, o, m, dis))
+            if not fails:
+                pure.append((c, o, m, dis))
             ctx.bump("disagreement_kinds", fam + ": " + re.sub(r"[0-9a-f]{6,}", "..", dis[0])[:70])
         elif not fails:
             validated += 1
@@ -819,13 +897,13 @@ def run(ctx):
              "on both sides (all 120 decoder combinations are walked); JSON-RPC with JSON-representable values; "
              "non-trivial = has arguments, headers, results or an error; distinct by the whole case")
     # a disagreement between model and implementation without a failing property: the correspondence is broken
-    if disagreements and not ctx.violations:
-        c, o, m, dis = disagreements[0]
-        ctx.report("c07:correspondence", "Model/Codec.v no longer matches the codecs (%d cases; first: %s)" % (len(disagreements), dis[0][:300]),
+    if pure:
+        c, o, m, dis = pure[0]
+        ctx.report("c07:correspondence", "Model/Codec.v no longer matches the codecs (%d cases; first: %s)" % (len(pure), dis[0][:300]),
                    {"case": c, "observed": slim(o), "model": m, "disagreements": dis[:5], "failing_input": False,
                     "correspondence": "Codec.client_encode/service_decode/service_encode/client_decode vs rpc/core codecs",
-                    "disagreeing_cases": len(disagreements)})
-    elif disagreements:
+                    "disagreeing_cases": len(pure)})
+    if disagreements:
         ctx.note("model_disagreements_on_cases_with_reported_failures", len(disagreements))
         ctx.note("first_disagreement", disagreements[0][3][0][:300])
 
